@@ -31,6 +31,10 @@ func Spec(id, tier string) *core.CheckSpec {
 			{Engine: "fcsim", Label: "fault-free", Seconds: sec(20, 240), Opt: core.Options{Params: p("faults", "0")}},
 			{Engine: "fcsim", Label: "faults", Seconds: sec(15, 240), Opt: core.Options{Params: p("faults", "1")}},
 		}
+	case "C16":
+		cs.Batches = []core.Batch{
+			{Engine: "cachesim", Label: "deposit-histories", Seconds: sec(20, 300), Opt: core.Options{}},
+		}
 	default:
 		return nil
 	}
